@@ -261,8 +261,9 @@ class EquationSolver(object):
             bad = False
             if abs(lastval-prev) > self.ParameterInitialSteadyStateErrorToler:
                 if abs(lastval) < 1e-4:
-                    if not abs(prev) < 1e-4:
-                        bad = True
+                    # Near zero, a relative test is meaningless: only the absolute
+                    # test (which has just failed) applies.
+                    bad = True
                 else:
                     err = abs(lastval - prev) / abs(lastval)
                     if err > self.ParameterInitialSteadyStateErrorToler:
